@@ -105,6 +105,27 @@ NOTES = {
              'of empty / equal bodies to the branches)',
     'c20_6': '**missed at first**: every provider answer was a complete transaction; C20 got the sub-space incomplete (copies without '
              'input values / block time / block height that the cache refuses) - exposed two genuine defects, repaired',
+    'c01_7': '**missed at first**: inputs described by their scriptPubKey always came with an explicit witness type; C01 got the route '
+             'keys_spk_nowt (witness type read from the scriptPubKey)',
+    'c02_7': '**missed at first**: the optional locktime argument of the relative-locktime setters; the live-object histories got the '
+             'events rel_blocks_lt / rel_time_lt',
+    'c03_7': '**missed at first**: HD keys that keep an uncompressed public key were outside the space; C03 got the differential '
+             'sub-space uncommute (public routes vs public part of the private child)',
+    'c05_7': '**missed at first**: an address string was never handed over together with a locking script or hash; C05 got those ways',
+    'c06_7': '**missed at first**: witness stacks were handed to add_input as lists only; C06 also hands them over in serialized form',
+    'c07_7': '**missed by C07**, reported by C08 (history [send_pick [0], send_pick [0], delete_last] on two outputs of one funding '
+             'transaction): both checks are run for it',
+    'c08_7': '**missed at first** (the wallet could no longer list its transactions and the harness stopped): C08 now reports a wallet '
+             'that cannot be observed as a deviation',
+    'c09_7': '**missed at first**: new_account() was only called for the wallet\'s own witness type; C09 got the event '
+             'new_account_otherwt',
+    'c10_7': '**missed at first**: every cosigner wallet knew the funding output; C10 got offline-cosigner ceremonies - exposed a genuine '
+             'defect (dictionary hand-off to an offline cosigner), repaired',
+    'c13_7': '**missed at first**: verify-call histories never used the negated signer key (same x); it was added to the key alphabet',
+    'c17_7': '**missed at first**: amounts were int, float, text or Value; C17 got Decimal and Fraction amounts - exposed a genuine defect '
+             '(fractions stored as output values), repaired',
+    'c20_7': '**missed at first**: provider fee estimates were always inside the network range; C20 got value classes around the '
+             'bounds (values, values_fo)',
     'c13': '**missed at first**: C13 verified every triple on a fresh object; it now explores verify-call histories on '
            'one Signature object (sub-space reuse)',
 }
